@@ -1,7 +1,7 @@
 """C02 - token stream preserved exactly under whitespace-only configurations."""
 import os
 
-from .. import build, cfggen, corpus, fmt, lex, minimise, mutate, registry, tokoracle
+from .. import build, cfggen, corpus, fmt, inject, lex, minimise, mutate, registry, tokoracle
 from ..common import pmap, rng, fixed_rng, sha
 
 LEVEL = 'exploration'
@@ -36,6 +36,14 @@ def _case(t):
             x = corpus.read(src[1])
         elif kind == 'mutant':
             x = mutate.mutate(corpus.read(src[1]), fixed_rng(PROP, 'mut:%s:%d' % (src[1], src[2])))
+        elif kind == 'inject':
+            base = corpus.read(src[1])
+            if b'\x00' in base or base[:2] in (b'\xff\xfe', b'\xfe\xff') or b'INDENT-O' in base or b'asm' in base or b'<#' in base \
+                    or not tokoracle.well_lexed(lex.lex(base, lang)):
+                return (cid, 'unclean-input', [], [], False, None)
+            x = inject.inject_comments(base, lang, fixed_rng(PROP, 'inj:%s:%d' % (src[1], src[2])), allow_cont=False)
+            if x is None or lex.code_stream(lex.lex(x, lang)) != lex.code_stream(lex.lex(base, lang)):
+                return (cid, 'unclean-input', [], [], False, None)
         else:
             x = src[1]
     else:
@@ -107,6 +115,14 @@ def check(ctx):
     for rel, lang, k in sr.sample(universe, 1200 if quick else len(universe)):
         n = fixed_rng(PROP, 'mutcfg:%s:%d' % (rel, k)).choice(sorted(curated))
         tasks.append(('mut:%s:%d:%s' % (rel, k, n), ('mutant', rel, k), lang, curated[n], True))
+    # comment injections (fixed universe: 4 per C-family corpus file) under combined newline/position/space families: a token that
+    # slips behind a '//' comment leaves the non-comment stream
+    combos = {n: cfggen.combo(opts, n) for n in cfggen.COMBOS}
+    inj_u = [(rel, lang, k) for rel, lang in files if lang in ('C', 'CPP', 'OC', 'OC+', 'JAVA', 'CS') for k in range(4)]
+    ctx.extra['injection_universe'] = len(inj_u) * len(combos)
+    for rel, lang, k in sr.sample(inj_u, 700 if quick else len(inj_u)):
+        for n in (fixed_rng(PROP, 'injcfg:%s:%d' % (rel, k)).sample(sorted(combos), 3) if quick else sorted(combos)):
+            tasks.append(('inject:%s:%d:%s' % (rel, k, n), ('inject', rel, k), lang, combos[n], True))
     # pair table: every ordered pair of token classes, all sp_ options at remove / force
     pairs = pair_snippets('C') + pair_snippets('CPP')
     ctx.extra['pair_table'] = len(pairs)
